@@ -254,14 +254,17 @@ func (p *splitPolicy) next(w *netx.World) (*netx.Event, bool) {
 // ---- the conformance oracle ---------------------------------------------------------------
 
 type confStats struct {
-	ctxChecked, ctxRebuilt      atomic.Int64
-	recSeen, recExpanded        atomic.Int64
-	reqs, resps, commits, cvs   atomic.Int64
-	cvReasonLost, commitRelabel atomic.Int64
-	hashOnly                    atomic.Int64
-	mu                          sync.Mutex
-	rebuiltByType               map[string]int
-	payloadsByType              map[string]int
+	ctxChecked, ctxRebuilt    atomic.Int64
+	recSeen, recExpanded      atomic.Int64
+	reqs, resps, commits, cvs atomic.Int64
+	cvReasonLost              atomic.Int64
+	commitOtherView           atomic.Int64 // commits rebuilt from a recovery message whose own view is not the carrier's
+	ctxCommitOtherView        atomic.Int64 // commit payloads held by a dBFT context of another view
+	ctxCommitOtherViewRebuilt atomic.Int64 // ... rebuilt from a recovery message
+	hashOnly                  atomic.Int64
+	mu                        sync.Mutex
+	rebuiltByType             map[string]int
+	payloadsByType            map[string]int
 }
 
 func (c *confStats) typ(m map[string]int, k string) {
@@ -290,14 +293,15 @@ type conformer struct {
 	orig     map[origKey][]*netx.Payload
 	next     int
 	seenObj  map[*consensus.Payload]bool
-	payloads []*netx.Payload // the world's payload list as last seen (harvest)
+	seenOV   map[*consensus.Payload]bool // commits seen in a context of another view
+	payloads []*netx.Payload             // the world's payload list as last seen (harvest)
 	nRec     int
 	nCV      int
 	byType   [8]int // payloads broadcast in this run: Q R C V recovery-request recovery-message
 }
 
 func newConformer(st *confStats) *conformer {
-	return &conformer{st: st, orig: map[origKey][]*netx.Payload{}, seenObj: map[*consensus.Payload]bool{}}
+	return &conformer{st: st, orig: map[origKey][]*netx.Payload{}, seenObj: map[*consensus.Payload]bool{}, seenOV: map[*consensus.Payload]bool{}}
 }
 
 func wireOf(p *consensus.Payload) []byte {
@@ -345,23 +349,8 @@ func (c *conformer) same(p *consensus.Payload, where string) string {
 			return ""
 		}
 	}
-	if k.t == dbft.CommitType && len(os) == 0 {
-		// A commit of another view inside a recovery message of this view: the
-		// compact form keeps the commit's own view, the expansion stamps the
-		// carrier's view on it. Its signature then fails against the header of
-		// the view it claims and dBFT discards it: not demanded by the property;
-		// counted, not reported. The signature itself must still be the original one.
-		data := dataOf(wire)
-		for v := 0; v < 8; v++ {
-			for _, o := range c.orig[origKey{k.t, k.h, byte(v), k.vidx}] {
-				od := dataOf(o.Bytes)
-				if len(od) > 7 && len(data) > 7 && bytes.Equal(od[7:], data[7:]) {
-					c.st.commitRelabel.Add(1)
-					return ""
-				}
-			}
-		}
-	}
+	// (A Commit of another view inside a recovery message keeps its own view
+	// number in the compact form and must come out with it: no tolerance.)
 	if len(os) == 0 {
 		return fmt.Sprintf("%s: %s was never broadcast by that validator", where, desc)
 	}
@@ -504,6 +493,13 @@ func (c *conformer) check(w *netx.World) (ps []netx.Problem) {
 					continue
 				}
 				cp, ok := x.(*consensus.Payload)
+				if ok && ai == 1 && cp.Height() == ctx.BlockIndex && cp.ViewNumber() != ctx.ViewNumber && !c.seenOV[cp] {
+					c.seenOV[cp] = true
+					c.st.ctxCommitOtherView.Add(1)
+					if cp.Extensible.Data == nil {
+						c.st.ctxCommitOtherViewRebuilt.Add(1)
+					}
+				}
 				if !ok || c.seenObj[cp] {
 					continue
 				}
@@ -526,6 +522,25 @@ func (c *conformer) check(w *netx.World) (ps []netx.Problem) {
 		}
 	}
 	return ps
+}
+
+// elemOf: what dBFT hands to OnReceive must be a payload of the kind asked for
+// (a nil element is dereferenced on the consensus event loop).
+func elemOf(x dbft.ConsensusPayload[util.Uint256], want dbft.MessageType) (*consensus.Payload, string) {
+	if x == nil {
+		return nil, "is nil (dBFT passes every element to OnReceive: nil dereference on the consensus event loop)"
+	}
+	xp, ok := x.(*consensus.Payload)
+	if !ok || xp == nil {
+		return nil, "is a nil or foreign payload"
+	}
+	if xp.Payload() == nil {
+		return nil, "has no message body"
+	}
+	if xp.Type() != want {
+		return nil, fmt.Sprintf("is a %s, not a %s", xp.Type(), want)
+	}
+	return xp, ""
 }
 
 // expand parses a RecoveryMessage from its wire form and checks everything
@@ -556,8 +571,11 @@ func (c *conformer) expand(wire []byte, where string) string {
 				return fmt.Sprintf("%s: preparation hash %s, the PrepareRequest of validator %d has %s", where, ph.StringLE()[:16], primary, op.Hash().StringLE()[:16])
 			}
 		}
-		for _, r := range rec.GetPrepareResponses(p, c.vals) {
-			rp := r.(*consensus.Payload)
+		for i, r := range rec.GetPrepareResponses(p, c.vals) {
+			rp, bad := elemOf(r, dbft.PrepareResponseType)
+			if bad != "" {
+				return fmt.Sprintf("%s -> PrepareResponse: element %d %s", where, i, bad)
+			}
 			if rp.ValidatorIndex() == primary {
 				continue // the primary's entry is the request's signature; dBFT ignores a response of the primary
 			}
@@ -567,15 +585,26 @@ func (c *conformer) expand(wire []byte, where string) string {
 			}
 		}
 	}
-	for _, x := range rec.GetCommits(p, c.vals) {
+	for i, x := range rec.GetCommits(p, c.vals) {
+		xp, bad := elemOf(x, dbft.CommitType)
+		if bad != "" {
+			return fmt.Sprintf("%s -> Commit: element %d %s", where, i, bad)
+		}
 		c.st.commits.Add(1)
-		if s := c.same(x.(*consensus.Payload), where+" -> Commit"); s != "" {
+		if xp.ViewNumber() != p.ViewNumber() {
+			c.st.commitOtherView.Add(1)
+		}
+		if s := c.same(xp, where+" -> Commit"); s != "" {
 			return s
 		}
 	}
-	for _, x := range rec.GetChangeViews(p, c.vals) {
+	for i, x := range rec.GetChangeViews(p, c.vals) {
+		xp, bad := elemOf(x, dbft.ChangeViewType)
+		if bad != "" {
+			return fmt.Sprintf("%s -> ChangeView: element %d %s", where, i, bad)
+		}
 		c.st.cvs.Add(1)
-		if s := c.same(x.(*consensus.Payload), where+" -> ChangeView"); s != "" {
+		if s := c.same(xp, where+" -> ChangeView"); s != "" {
 			return s
 		}
 	}
@@ -655,7 +684,7 @@ func splitGroups(r *vk.Run, scs []*scen) []splitJob {
 	maxS := vk.Pick(r, 2, 3)
 	dirs := vk.Pick(r, []bool{false}, []bool{false, true})
 	for _, sc := range scs {
-		if !sc.split || (sc.deep && !r.Thorough()) {
+		if !sc.split || sc.xview || (sc.deep && !r.Thorough()) {
 			continue
 		}
 		for _, v1 := range []bool{false, true} {
@@ -761,9 +790,11 @@ func exploreSplits(t *testing.T, r *vk.Run, scs []*scen, running *sync.Map) map[
 			sp := g.sp
 			sp.K = j.k
 			key := g.sc.Name + "|" + sp.String()
+			fdone := inflightBegin(probeRec{Kind: "split", Scen: g.sc.Name, Split: &sp})
 			running.Store(key, time.Now())
 			res, pol, cf := runSplit(t, g.sc, sp, st)
 			running.Delete(key)
+			fdone()
 			if res.End == "error" {
 				fmt.Println("CHECK-ERROR: split", key, "could not be executed:", res.Err)
 				os.Exit(3)
@@ -839,7 +870,7 @@ func exploreSplits(t *testing.T, r *vk.Run, scs []*scen, running *sync.Map) map[
 		sp.K = kR | kC | kV
 		a, _, _ := runSplit(t, g.sc, sp, newConfStats())
 		b, _, _ := runSplit(t, g.sc, sp, newConfStats())
-		if strings.Join(a.Log, "\n") != strings.Join(b.Log, "\n") || fmt.Sprint(a.Blocks) != fmt.Sprint(b.Blocks) {
+		if normLog(a.Log) != normLog(b.Log) || fmt.Sprint(a.Blocks) != fmt.Sprint(b.Blocks) {
 			fmt.Println("CHECK-ERROR: nondeterministic scripted run", g.sc.Name, sp.String())
 			os.Exit(3)
 		}
@@ -852,35 +883,37 @@ func exploreSplits(t *testing.T, r *vk.Run, scs []*scen, running *sync.Map) map[
 	st.mu.Lock()
 	defer st.mu.Unlock()
 	return map[string]any{
-		"rule":                                "families n4-split:primary0..3 (pad blocks slide the primary; t0 pooled only at the first primary, t1 only at the second): scripted prefix = synchronous default schedule in which traffic of the kinds K (Q PrepareRequest, R PrepareResponse, C Commit, V ChangeView, Y RecoveryRequest+RecoveryMessage, T transaction replies) does not reach the impaired set S (late: delivered after the prefix; lost: dropped; T is always late) and no block is handed to S; silent: the node is silenced, then resumed; view1: the first PrepareRequest is lost for everybody; the prefix ends when every member of S has timed out L times, or a block exists, or nothing is enabled; then the synchronous continuation with the safety, carry, liveness and recovery-conform oracles. All S with 1..maxS members x all 64 masks K x modes x view 0/1 x L; a mask K+x is skipped iff the run for K saw no traffic of kind x towards S (identical executions)",
-		"bounds":                              map[string]any{"impaired_set_sizes": []int{1, vk.Pick(r, 2, 3)}, "timeouts_L": vk.Pick(r, "lost, silent: 1; late: 1 (single impaired validator), 2 (pair)", "1, 2"), "directions": vk.Pick(r, "in", "in,out"), "heights": vk.Pick(r, 2, 3)},
-		"groups":                              len(groups),
-		"specs_enumerated":                    int(nEnum.Get()),
-		"specs_run":                           int(nRun.Get()),
-		"specs_skipped_as_identical":          int(nSkip.Get()),
-		"completed":                           !capped,
-		"runs_by_mode":                        byMode,
-		"run_ends":                            ends,
-		"distinct_outcomes":                   outcomes.Len(),
-		"distinct_traffic_signatures":         traffic.Len(),
-		"runs_with_recovery_messages":         withRec,
-		"runs_with_change_views":              withCV,
-		"blocks_by_view_and_primary":          prims,
-		"blocks_made_above_view0":             view1Blocks,
-		"events":                              int(steps.Get()),
-		"prefix_events":                       int(prefixSteps.Get()),
-		"longest_prefix":                      int(maxPrefix.Load()),
-		"liveness_max_steps_observed":         int(maxLive.Load()),
-		"payloads_broadcast_by_type":          st.payloadsByType,
-		"conform_context_payloads_checked":    int(st.ctxChecked.Load()),
-		"conform_context_payloads_rebuilt":    int(st.ctxRebuilt.Load()),
-		"conform_rebuilt_in_context_by_type":  st.rebuiltByType,
-		"conform_recovery_messages_expanded":  int(st.recExpanded.Load()),
-		"conform_expanded_prepare_requests":   int(st.reqs.Load()),
-		"conform_expanded_prepare_responses":  int(st.resps.Load()),
-		"conform_expanded_commits":            int(st.commits.Load()),
-		"conform_expanded_change_views":       int(st.cvs.Load()),
-		"conform_change_view_reason_not_kept": int(st.cvReasonLost.Load()),
-		"conform_commit_of_other_view":        int(st.commitRelabel.Load()),
+		"rule":                                          "families n4-split:primary0..3 (pad blocks slide the primary; t0 pooled only at the first primary, t1 only at the second): scripted prefix = synchronous default schedule in which traffic of the kinds K (Q PrepareRequest, R PrepareResponse, C Commit, V ChangeView, Y RecoveryRequest+RecoveryMessage, T transaction replies) does not reach the impaired set S (late: delivered after the prefix; lost: dropped; T is always late) and no block is handed to S; silent: the node is silenced, then resumed; view1: the first PrepareRequest is lost for everybody; the prefix ends when every member of S has timed out L times, or a block exists, or nothing is enabled; then the synchronous continuation with the safety, carry, liveness and recovery-conform oracles. All S with 1..maxS members x all 64 masks K x modes x view 0/1 x L; a mask K+x is skipped iff the run for K saw no traffic of kind x towards S (identical executions)",
+		"bounds":                                        map[string]any{"impaired_set_sizes": []int{1, vk.Pick(r, 2, 3)}, "timeouts_L": vk.Pick(r, "lost, silent: 1; late: 1 (single impaired validator), 2 (pair)", "1, 2"), "directions": vk.Pick(r, "in", "in,out"), "heights": vk.Pick(r, 2, 3)},
+		"groups":                                        len(groups),
+		"specs_enumerated":                              int(nEnum.Get()),
+		"specs_run":                                     int(nRun.Get()),
+		"specs_skipped_as_identical":                    int(nSkip.Get()),
+		"completed":                                     !capped,
+		"runs_by_mode":                                  byMode,
+		"run_ends":                                      ends,
+		"distinct_outcomes":                             outcomes.Len(),
+		"distinct_traffic_signatures":                   traffic.Len(),
+		"runs_with_recovery_messages":                   withRec,
+		"runs_with_change_views":                        withCV,
+		"blocks_by_view_and_primary":                    prims,
+		"blocks_made_above_view0":                       view1Blocks,
+		"events":                                        int(steps.Get()),
+		"prefix_events":                                 int(prefixSteps.Get()),
+		"longest_prefix":                                int(maxPrefix.Load()),
+		"liveness_max_steps_observed":                   int(maxLive.Load()),
+		"payloads_broadcast_by_type":                    st.payloadsByType,
+		"conform_context_payloads_checked":              int(st.ctxChecked.Load()),
+		"conform_context_payloads_rebuilt":              int(st.ctxRebuilt.Load()),
+		"conform_rebuilt_in_context_by_type":            st.rebuiltByType,
+		"conform_recovery_messages_expanded":            int(st.recExpanded.Load()),
+		"conform_expanded_prepare_requests":             int(st.reqs.Load()),
+		"conform_expanded_prepare_responses":            int(st.resps.Load()),
+		"conform_expanded_commits":                      int(st.commits.Load()),
+		"conform_expanded_change_views":                 int(st.cvs.Load()),
+		"conform_change_view_reason_not_kept":           int(st.cvReasonLost.Load()),
+		"conform_expanded_commits_of_other_view":        int(st.commitOtherView.Load()),
+		"conform_context_commits_of_other_view":         int(st.ctxCommitOtherView.Load()),
+		"conform_context_commits_of_other_view_rebuilt": int(st.ctxCommitOtherViewRebuilt.Load()),
 	}
 }
